@@ -3,6 +3,7 @@ mod driver;
 mod fam_sel;
 mod fam_stack;
 mod fam_xo;
+mod fam_mut;
 mod prims;
 mod report;
 mod rng;
@@ -43,6 +44,9 @@ fn main() {
         "sel" => fam_sel::run(&cfg),
         "xo" => fam_xo::run(&cfg),
         "xo-selftest" => fam_xo::selftest(&cfg),
+        "mut" => fam_mut::run(&cfg),
+        "rates" => fam_mut::run_rates(&cfg),
+        "mut-selftest" => fam_mut::selftest(&cfg),
         f => { eprintln!("unknown family {f}"); std::process::exit(2) }
     };
     let js = serde_json::to_string_pretty(&rep.to_json()).unwrap();
